@@ -351,6 +351,20 @@ func CreateStmt(rt *rapid.T, maxCols int, db *model.DB) model.Stmt {
 			}
 		}
 	}
+	if names := db.TableNames(); len(names) > 0 && rapid.IntRange(0, 9).Draw(rt, "prefixvariant") == 0 {
+		// a name that is a proper prefix of an existing table's name, or extends one
+		base := names[rapid.IntRange(0, len(names)-1).Draw(rt, "prefixof")]
+		cands := []string{base + "2", base + "_archive"}
+		if len(base) > 1 {
+			cands = append([]string{base[:len(base)-1], base[:1]}, cands...)
+		}
+		for _, v := range cands {
+			if db.Tables[v] == nil && okIdent(v) && PlainIdent(v) {
+				name = v
+				break
+			}
+		}
+	}
 	for i := 0; db.Tables[name] != nil; i++ {
 		name = fmt.Sprintf("%s_%d", name, i)
 	}
